@@ -251,6 +251,13 @@ package gedcom
 //@   props C08
 //@   allows @caches, @diffown
 //
+// C07: comparing writes nothing but caches
+//@ frame DeepEqual
+//@   props C07
+//@   allows @caches
+//@ frame DeepEqualNodes
+//@   props C07
+//@   allows @caches
 // C07 / C09: copies and merges are built from fresh nodes and leave their inputs alone
 //@ frame DeepCopy
 //@   props C07 C09 C13
@@ -1592,6 +1599,46 @@ package gedcom
 //@   ensures one-fewer-per-merge: len(result) == len(left) + len(right0) - nMerge
 //@   safety
 
+// C09 (merge functions): the equality merge function merges exactly the pairs
+// that Equals accepts - it asks about these two nodes, calls MergeNodes on
+// them (and the given document) iff the answer is yes, and hands back that
+// merge; otherwise nil. The similarity merge function merges only two
+// individuals, and only when their weighted surrounding similarity is above
+// the minimum.
+//@ func EqualityMergeFunction
+//@   props C09
+//@   ghost eq bool = false
+//@   ghost m iface
+//@   ghost mErr iface
+//@   ghost nMerge int = 0
+//@   opaque MergeNodes
+//@   oncall Node.Equals check both-nodes: arg0 == left && arg1 == right
+//@   oncall Node.Equals do eq = result
+//@   oncall MergeNodes check only-equal-nodes: eq && arg0 == left && arg1 == right && arg2 == document
+//@   oncall MergeNodes do m = result0; mErr = result1; nMerge = nMerge + 1
+//@   ensures merges-iff-equal: implies(eq, nMerge == 1) && implies(!eq, nMerge == 0 && isnil(result))
+//@   ensures hands-back-the-merge: implies(eq && isnil(mErr), result == m)
+//@   ensures nil-on-error: implies(eq && !isnil(mErr), isnil(result))
+//@ func IndividualBySurroundingSimilarityMergeFunction$1
+//@   props C09
+//@   ghost w real = 0.0
+//@   ghost nSim int = 0
+//@   ghost nMerge int = 0
+//@   ghost m iface
+//@   opaque IndividualNode.SurroundingSimilarity, SurroundingSimilarity.WeightedSimilarity, MergeNodes
+//@   oncall IndividualNode.SurroundingSimilarity check both-individuals: typeis(left, "*gedcom.IndividualNode") && typeis(right, "*gedcom.IndividualNode") && arg0 == data(left) && arg1 == data(right)
+//@   oncall IndividualNode.SurroundingSimilarity do nSim = nSim + 1
+// (the captured minimum is read where the code compares it: the calls around
+// it have no frame and could, for all the verifier knows, change the cell)
+//@   ghost minAt real = 0.0
+//@   oncall SurroundingSimilarity.WeightedSimilarity do w = result; minAt = minimumSimilarity
+//@   oncall MergeNodes check above-the-minimum: nSim == 1 && w > minAt && arg0 == left && arg1 == right && arg2 == document
+//@   oncall MergeNodes do nMerge = nMerge + 1; m = result0
+//@   ensures not-individuals: implies(!typeis(left, "*gedcom.IndividualNode") || !typeis(right, "*gedcom.IndividualNode"), isnil(result) && nMerge == 0)
+//@   ensures merges-iff-similar: implies(nSim == 1, nMerge == ite(w > minAt, 1, 0))
+//@   ensures nil-unless-merged: implies(nMerge == 0, isnil(result))
+//@   ensures hands-back-the-merge: implies(nMerge == 1, result == m)
+
 // C08 (provenance): a node that arrives from the left side can only fill the
 // Left slot of an entry, one from the right side only the Right slot, and a
 // slot that is filled is never overwritten. Observed where the children are
@@ -1622,6 +1669,34 @@ package gedcom
 //@   loop 1 iter new-entry-kept: implies(nd != nil && made != old(made), len(nd.Children) >= 1 && nd.Children[len(nd.Children)-1] == made)
 //@   loop 1 nobreak
 
+// C07 (one level of deep equality): a nil node is never deeply equal to
+// anything; two different nodes are deeply equal only if Equals(left, right)
+// says so (it is asked about exactly these two) and their child lists have the
+// same length and are deeply equal as lists (DeepEqualNodes on exactly the two
+// child lists); the answer is then that of the lists.
+//@ func DeepEqual
+//@   props C07
+//@   ghost eqAsked int = 0
+//@   ghost eq bool = true
+//@   ghost kids bool = false
+//@   ghost nKids int = 0
+//@   ghost L slice
+//@   ghost R slice
+//@   opaque DeepEqualNodes
+//@   oncall Node.Equals check these-two: arg0 == left && arg1 == right
+//@   oncall Node.Equals do eq = result; eqAsked = eqAsked + 1
+//@   oncall Node.Nodes#1 check of-left: arg0 == left
+//@   oncall Node.Nodes#1 do L = result
+//@   oncall Node.Nodes#2 check of-right: arg0 == right
+//@   oncall Node.Nodes#2 do R = result
+//@   oncall DeepEqualNodes check the-two-child-lists: arg0 == L && arg1 == R && len(L) == len(R) && (left == right || (eqAsked == 1 && eq))
+//@   oncall DeepEqualNodes do kids = result; nKids = nKids + 1
+//@   ensures nil-never-equal: implies(isnil(left) || isnil(right), !result)
+//@   ensures children-decide: implies(result, nKids == 1 && kids) && implies(nKids == 1, result == kids)
+// (frame: checked by the frame engine, `frame DeepEqual` below, and trusted here)
+//@   assigns alloc
+//@   trustframe
+
 // C07 (matching step of the order-insensitive comparison): a right-hand slot
 // is taken only by a left node that is deeply equal to it, at most one slot
 // per left node, and a taken slot is never released or taken again.
@@ -1634,6 +1709,7 @@ package gedcom
 //@   loop 2 iter takes-iff-equal: matches[i] == (old(matches[i]) || (eq && !old(matches[i])))
 //@   loop 2 iter others-kept: forall(j, implies(j != i, matches[j] == old(matches[j])))
 //@   ensures lengths: implies(len(left) != len(right), !result)
+//@   loop 1 iter every-left-child-found-a-slot: foundMatch
 
 // C12: the parents component of the surrounding similarity is the best
 // similarity over all pairs (a parent family of the one, a parent family of
@@ -1717,11 +1793,12 @@ package gedcom
 //@   loop 1 nobreak
 //@ func IndividualNode.resetCache
 //@   props C13
-//@   ensures forgets: implies(node != nil, !node.cachedFamilies && !node.cachedSpouses && node.cachedUniqueIDs == nil)
+// (no nil guard: with a nil receiver the first store panics, the call does not return)
+//@   ensures forgets: !node.cachedFamilies && !node.cachedSpouses && node.cachedUniqueIDs == nil
 //@   assigns H.gedcom.IndividualNode.cachedFamilies, H.gedcom.IndividualNode.cachedSpouses, H.gedcom.IndividualNode.families, H.gedcom.IndividualNode.spouses, H.gedcom.IndividualNode.cachedUniqueIDs
 //@ func FamilyNode.resetCache
 //@   props C13
-//@   ensures forgets: implies(node != nil, !node.cachedHusband && !node.cachedWife)
+//@   ensures forgets: !node.cachedHusband && !node.cachedWife
 //@   assigns H.gedcom.FamilyNode.cachedHusband, H.gedcom.FamilyNode.cachedWife, H.gedcom.FamilyNode.husband, H.gedcom.FamilyNode.wife
 //
 // 3. husband, wife and children of a family: the individuals remember their
